@@ -62,7 +62,8 @@ class DSLEvaluator(Evaluator):
                     evaluations[sub_prog] = fun
         except Exception as e:
             if type(e) in self.skip_exceptions:
-                evaluations[program] = None
+                # The failure is NOT stored in the cache: a None entry would later be
+                # read back as the ordinary value of this sub-program by a larger program.
                 return None
             else:
                 raise e
